@@ -65,7 +65,7 @@ pub fn check_trace(
     max_failures: usize,
 ) -> (Vec<AirFailure>, u64, ColMatrix<Q>) {
     let air = make_air(trace, stack_inputs);
-    let aux = trace.build_aux_segment::<Q>(&[], challenges).expect("aux segment");
+    let aux = trace.build_aux_segment::<Q>(&[], challenges).expect("SUBJECT: aux segment must be built");
     let mut rand = AuxTraceRandElements::<Q>::new();
     rand.add_segment_elements(challenges.to_vec());
     let n = trace.length();
